@@ -2,7 +2,7 @@
 From Coq Require Import List String Ascii ZArith. Import ListNotations.
 From Coq Require Import List Bool ZArith.
 From SV Require Import Lib.Str Model.Types Model.Naming Model.Api Model.Back Proofs.BackProofs.
-From SV Require Import Model.FrontSmall Model.View Model.Front Proofs.FrontProofs.
+From SV Require Import Model.FrontSmall Model.View Model.Front Proofs.FrontProofs Proofs.RunProofs.
 
 (* the implicit receiver is removed by dropping exactly the first parameter *)
 Theorem C06_receiver_skip : forall classes rmap nc ps indent,
@@ -51,9 +51,19 @@ Proof. exact parse_parameter_shape. Qed.
 Theorem C06_front_literal_default : forall fid e v, signed_literal e = Some v ->
   default_of fid e = (v, match v with None => true | Some _ => false end, []).
 Proof. exact default_of_literal. Qed.
+(* END TO END: a parameter whose initializer is a literal of the statement (int, float, str, bool, None, signed number) is
+   optional and the generator writes its default with the same value: the decimal / repr text of a number, true / false, null,
+   and for a string the quoted text with its content escaped *)
+Theorem C06_literal_default_end_to_end : forall env d st f fid a p tv lg amb e v s,
+  parse_parameter env d st f fid a = Ok (p, tv, lg, amb) -> ar_init a = Some e -> signed_literal e = Some v ->
+  p_assigned p <> POSITIONAL_VARARG ->
+  p_optional p = true /\ render_default p s = Ok (literal_text v, s) /\
+  (forall x, e = EStr x -> literal_text v = quoted (escape_string_content x)).
+Proof. exact literal_default_end_to_end. Qed.
 Print Assumptions C06_receiver_skip.
 Print Assumptions C06_param_name.
 Print Assumptions C06_param_default.
 Print Assumptions C06_default_value.
 Print Assumptions C06_front_parameter.
 Print Assumptions C06_front_literal_default.
+Print Assumptions C06_literal_default_end_to_end.
